@@ -133,6 +133,12 @@ def trace_validation(rep, wd, tier, seed):
         for i in range(len(valid) - 1):
             if valid[i] != valid[i + 1]:
                 variants.append(valid[:i] + valid[i + 1] + valid[i] + valid[i + 2:])
+        if tid % 3 == 0 and kind == 'ok':
+            # the number as it is written on a card (separators; odd and even numbers of them), valid and with a wrong digit
+            for sep, step in ((' ', 4), ('-', 4), (' ', 6), (' ', len(valid) // 2 or 1)):
+                body = sep.join(valid[:-1][i:i + step] for i in range(0, len(valid) - 1, step))
+                variants.append(body + valid[-1])
+                variants.append(body + str((int(valid[-1]) + 3) % 10))
         traces.append({'tid': tid, 'events': ev, '_variants': variants, '_desc': 'number %s' % shown})
         allnums += variants
     normal, opt = validate_modes(allnums)
